@@ -194,3 +194,243 @@ Theorem C10_pipelines_share_writer_and_channel :
                          WCall "zapr.NewLogger" [WResult (WMethod (WVar "optLoggerConfig") "Build" []) 0]]) 0]).
 Proof. exact pipelines_share_writer_and_channel. Qed.
 Print Assumptions C10_pipelines_share_writer_and_channel.
+
+(* ======================= the JSON line an event becomes =======================
+   Model/JsonEnc.v is an executable model of what the daemon's one event writer
+   (auditevent.NewDefaultAuditEventWriter = encoding/json's Encoder, escapeHTML on) writes for an AuditEvent:
+   [enc_string] follows appendString branch by branch over [decode_rune] = utf8.DecodeRuneInString; Go maps are
+   written in the byte order of their keys; struct fields in declaration order with omitempty; [enc_line] = the
+   text and ONE newline, handed to the file in one Write call.  The model is compared BYTE FOR BYTE with the real
+   writer on every run (harness/jsonenc: hostile strings in every field; the real sshd processor and the real
+   correlator writing through the real writer; Model/JsonEncCheck.v).
+   The statements below hold for ALL field contents — any bytes: NUL, newlines, quotes, backslashes, invalid
+   UTF-8, U+2028 — in every field, key and value. *)
+From AM Require Import Model.JsonEnc Model.Framing Proofs.JsonEncLemmas.
+From Coq Require Import Ascii Permutation Sorted.
+Open Scope list_scope.
+
+(* ---- 1. the text of a string: starts and ends with the double quote; every byte is 0x20 or above and is never a
+   raw & < > — so no control byte and in particular NO NEWLINE, whatever the string holds *)
+Theorem C10_json_string_quoted : forall s : str, exists body, enc_string s = dq :: body ++ [dq].
+Proof. exact enc_string_quoted. Qed.
+Print Assumptions C10_json_string_quoted.
+
+Theorem C10_json_string_bytes : forall s : str, forallb out_byte_ok (enc_string s) = true.
+Proof. exact enc_string_out. Qed.
+Print Assumptions C10_json_string_bytes.
+
+Theorem C10_json_string_no_newline : forall s : str, ~ In newline (enc_string s).
+Proof. exact enc_string_no_newline. Qed.
+Print Assumptions C10_json_string_no_newline.
+
+(* ---- 3. ROUND TRIP.  A JSON string decoder (RFC 8259 section 7: the two-character escapes, \uXXXX, surrogate pairs;
+   raw control bytes and unknown escapes rejected) applied to the encoded string FOLLOWED BY ANY TEXT finds the end
+   of the literal exactly where the encoder put it and returns the field: every byte that is part of well-formed
+   UTF-8 unchanged, every other byte as U+FFFD.  Nothing a client puts into a field can end the string early, start
+   another member, or fake a field boundary. *)
+Theorem C10_json_string_roundtrip : forall s rest : str,
+  dec_string_prefix (enc_string s ++ rest) = Some (sanitize s, rest).
+Proof. exact dec_enc_string_prefix. Qed.
+Print Assumptions C10_json_string_roundtrip.
+
+Theorem C10_json_string_roundtrip_exact : forall s : str, dec_string (enc_string s) = Some (sanitize s).
+Proof. exact dec_enc_string. Qed.
+Print Assumptions C10_json_string_roundtrip_exact.
+
+Theorem C10_json_sanitize_valid : forall s : str, valid_utf8 s = true -> sanitize s = s.
+Proof. exact sanitize_valid. Qed.
+Print Assumptions C10_json_sanitize_valid.
+
+Theorem C10_json_string_roundtrip_valid : forall s : str, valid_utf8 s = true -> dec_string (enc_string s) = Some s.
+Proof. exact dec_enc_string_valid. Qed.
+Print Assumptions C10_json_string_roundtrip_valid.
+
+(* ---- 4. the encoding determines the (sanitised) string; on valid UTF-8 it is injective *)
+Theorem C10_json_string_determines_field : forall s1 s2 : str, enc_string s1 = enc_string s2 -> sanitize s1 = sanitize s2.
+Proof. exact enc_string_sanitize_inj. Qed.
+Print Assumptions C10_json_string_determines_field.
+
+Theorem C10_json_string_injective : forall s1 s2 : str,
+  valid_utf8 s1 = true -> valid_utf8 s2 = true -> enc_string s1 = enc_string s2 -> s1 = s2.
+Proof. exact enc_string_inj. Qed.
+Print Assumptions C10_json_string_injective.
+
+(* the encoding is NOT injective on arbitrary bytes: two different invalid bytes are both written as the escape of U+FFFD *)
+Theorem C10_json_string_injective_refuted : exists s1 s2 : str, s1 <> s2 /\ enc_string s1 = enc_string s2.
+Proof. exists (hx "ff"), (hx "fe"). split; [discriminate|vm_compute; reflexivity]. Qed.
+Print Assumptions C10_json_string_injective_refuted.
+
+(* ---- 2. ONE LINE PER EVENT.  [event_ok e]: the formatted time consists of digits and - : . T Z + and the verbatim
+   texts inside the Extra maps / Data (there are none in the daemon's events) hold no newline; NOTHING is assumed about
+   any string. *)
+Theorem C10_json_event_no_newline : forall e : jevent, event_ok e = true -> ~ In newline (enc_event e).
+Proof. exact enc_event_no_newline. Qed.
+Print Assumptions C10_json_event_no_newline.
+
+Theorem C10_json_one_line : forall e : jevent, event_ok e = true ->
+  count_occ ascii_dec (enc_line e) newline = 1%nat /\ last (enc_line e) dq = newline.
+Proof. exact enc_line_one_newline. Qed.
+Print Assumptions C10_json_one_line.
+
+(* Splitting the output at newlines — [frames] is the very function C12 proves the pipes' reader computes — gives
+   back exactly the written events, one per line, for EVERY list of events; a torn tail t (bytes of a write still in
+   progress, no newline yet) is never taken for an event. *)
+Theorem C10_json_lines_split : forall (es : list jevent) (t : str),
+  Forall (fun e => event_ok e = true) es -> ~ In newline t ->
+  frames newline (List.concat (map enc_line es) ++ t) = (map enc_line es, t).
+Proof. exact lines_split. Qed.
+Print Assumptions C10_json_lines_split.
+
+Theorem C10_json_lines_split_bodies : forall es : list jevent,
+  Forall (fun e => event_ok e = true) es ->
+  map (strip1 newline) (records newline (List.concat (map enc_line es))) = map enc_event es.
+Proof. exact lines_split_bodies. Qed.
+Print Assumptions C10_json_lines_split_bodies.
+
+(* the events of the two models always meet [event_ok]: only the time text is a premise *)
+Theorem C10_json_login_view_ok : forall (aid t : str) (e : Model.SshdProc.event),
+  time_text_ok t = true -> event_ok (login_view aid t e) = true.
+Proof. exact login_view_ok. Qed.
+Print Assumptions C10_json_login_view_ok.
+
+Theorem C10_json_action_view_ok : forall (t : str) (a : Model.ToEvent.uaction),
+  time_text_ok t = true -> event_ok (action_view t a) = true.
+Proof. exact action_view_ok. Qed.
+Print Assumptions C10_json_action_view_ok.
+
+(* ---- 4. maps: a Go map (distinct keys) is written with its keys in strictly increasing byte order, so the order
+   in which its entries were inserted / are iterated does not show; two values that are the same event — equal scalar
+   fields, maps with the same entries — have the same line *)
+Theorem C10_json_map_keys_increasing : forall m : list (str * jval),
+  NoDup (map fst m) -> StronglySorted klt (sort_kv m).
+Proof. exact (@sort_kv_keys_increasing jval). Qed.
+Print Assumptions C10_json_map_keys_increasing.
+
+Theorem C10_json_map_order_independent : forall m1 m2 : list (str * jval),
+  NoDup (map fst m1) -> Permutation m1 m2 -> enc_value (jmap m1) = enc_value (jmap m2).
+Proof. exact jmap_order_independent. Qed.
+Print Assumptions C10_json_map_order_independent.
+
+Theorem C10_json_same_event_same_line : forall e1 e2 : jevent,
+  keys_distinct e1 -> same_event e1 e2 -> enc_line e1 = enc_line e2.
+Proof. exact enc_line_same_event. Qed.
+Print Assumptions C10_json_same_event_same_line.
+
+(* ---- concrete runs.  A UserLogin whose user name tries to end the line and forge a second event: the name is
+   "x", a double quote, "}", a NEWLINE, and the start of a forged object. *)
+Definition C10_json_hostile_login : Model.SshdProc.event :=
+  {| Model.SshdProc.ev_ok := false; Model.SshdProc.ev_src := s2l "10.0.0.9";
+     Model.SshdProc.ev_port := Some (s2l "22"); Model.SshdProc.ev_dns := None;
+     Model.SshdProc.ev_logged_as := hx "78227d0a7b226d65746164617461223a7b7d7d";
+     Model.SshdProc.ev_user_id := s2l "unknown"; Model.SshdProc.ev_pid := s2l "4242";
+     Model.SshdProc.ev_file_path := None; Model.SshdProc.ev_key_type := None; Model.SshdProc.ev_fingerprint := None;
+     Model.SshdProc.ev_shell := None; Model.SshdProc.ev_data := [];
+     Model.SshdProc.ev_host := s2l "node-7"; Model.SshdProc.ev_mid := s2l "mid-0123" |}.
+
+Example C10_json_example :
+  let e := login_view (s2l "id-1") (s2l "2023-04-05T06:07:08.123456789Z") C10_json_hostile_login in
+  event_ok e = true /\
+  enc_line e = s2l "{""metadata"":{""auditId"":""id-1""},""type"":""UserLogin"",""loggedAt"":""2023-04-05T06:07:08.123456789Z"",""source"":{""type"":""IP"",""value"":""10.0.0.9"",""extra"":{""port"":""22""}},""outcome"":""failed"",""subjects"":{""loggedAs"":""x\""}\n{\""metadata\"":{}}"",""pid"":""4242"",""userID"":""unknown""},""component"":""sshd"",""target"":{""host"":""node-7"",""machine-id"":""mid-0123""}}"
+               ++ [newline] /\
+  (* two such events, then a torn third one: exactly two lines, the torn bytes stay in the tail *)
+  frames newline (enc_line e ++ enc_line e ++ firstn 40 (enc_line e)) = ([enc_line e; enc_line e], firstn 40 (enc_line e)) /\
+  (* the hostile name reads back as it was *)
+  dec_string (enc_string (Model.SshdProc.ev_logged_as C10_json_hostile_login)) = Some (Model.SshdProc.ev_logged_as C10_json_hostile_login) /\
+  (* the source reads back with U+FFFD for the invalid byte *)
+  dec_string (enc_string (hx "31302e302e302e39ffe280a8")) = Some (hx "31302e302e302e39efbfbde280a8") /\
+  valid_utf8 (hx "31302e302e302e39ffe280a8") = false /\ valid_utf8 (hx "78227d0a7b22") = true.
+Proof. vm_compute. repeat split; reflexivity. Qed.
+
+(* maps: insertion orders of one map, keys equal up to case and a key that is a prefix of another *)
+Example C10_json_map_example :
+  let m1 := [(s2l "key", JStr (s2l "1")); (s2l "Key", JStr (s2l "2")); (s2l "ke", JStr (s2l "3")); (s2l "KEY", JNull)] in
+  let m2 := [(s2l "ke", JStr (s2l "3")); (s2l "KEY", JNull); (s2l "key", JStr (s2l "1")); (s2l "Key", JStr (s2l "2"))] in
+  NoDup (map fst m1) /\ Permutation m1 m2 /\
+  enc_value (jmap m1) = s2l "{""KEY"":null,""Key"":""2"",""ke"":""3"",""key"":""1""}" /\
+  enc_value (jmap m2) = enc_value (jmap m1).
+Proof.
+  cbv zeta. split; [|split; [|split; vm_compute; reflexivity]].
+  - repeat constructor; cbn; intros H; repeat (destruct H as [H | H]; [discriminate H|]); exact H.
+  - eapply Permutation_trans; [|apply Permutation_app_comm with (l := [_; _]) (l' := [_; _])]. apply Permutation_refl.
+Qed.
+
+(* ---- 3'. THE WHOLE OBJECT.  A recursive-descent parser for the JSON the events are made of (strings, null, arrays,
+   objects; Model/JsonEnc.v [parse_value]) — it uses fuel, and for EVERY text the out-of-fuel value is never returned: *)
+From AM Require Import Proofs.JsonParseLemmas.
+Theorem C10_json_parse_never_out_of_fuel : forall s : str, parse s <> PFuel.
+Proof. exact parse_never_out_of_fuel. Qed.
+Print Assumptions C10_json_parse_never_out_of_fuel.
+
+(* applied to the text of ANY value followed by ANY text, with fuel at least the length of the value's text, the
+   parser returns the value as a reader sees it ([norm]: every string and key sanitised) and the text that follows:
+   values end exactly where the encoder ended them, at every nesting depth *)
+Theorem C10_json_parse_value : forall (v : jval) (fuel : nat) (rest : str),
+  readable v = true -> (List.length (enc_value v) <= fuel)%nat -> parse_value fuel (enc_value v ++ rest) = POk (norm v) rest.
+Proof. intros v fuel rest H. exact (parse_value_enc v H fuel rest). Qed.
+Print Assumptions C10_json_parse_value.
+
+(* the line of an event parses to exactly the event: the members of the struct in their fixed order —
+   metadata{auditId[,extra]}, type, loggedAt, source{type,value[,extra]}, outcome, subjects, component[,target][,data] —
+   each holding the event's field ([reader_view], strings sanitised, maps key-sorted); no field content can add,
+   remove, reorder or rename a member *)
+Theorem C10_json_parse_event : forall e : jevent,
+  event_readable e = true -> parse (enc_event e) = POk (reader_view e) [].
+Proof. exact parse_enc_event_view. Qed.
+Print Assumptions C10_json_parse_event.
+
+Theorem C10_json_login_view_readable : forall (aid t : str) (e : Model.SshdProc.event),
+  time_text_ok t = true -> event_readable (login_view aid t e) = true.
+Proof. exact login_view_readable. Qed.
+Print Assumptions C10_json_login_view_readable.
+
+Theorem C10_json_action_view_readable : forall (t : str) (a : Model.ToEvent.uaction),
+  time_text_ok t = true -> event_readable (action_view t a) = true.
+Proof. exact action_view_readable. Qed.
+Print Assumptions C10_json_action_view_readable.
+
+(* the hostile login above, read back: the name is ONE string under subjects.loggedAs, byte for byte what it was *)
+Example C10_json_parse_example :
+  let e := login_view (s2l "id-1") (s2l "2023-04-05T06:07:08.123456789Z") C10_json_hostile_login in
+  event_readable e = true /\
+  parse (enc_event e) =
+    POk (JObj [ (s2l "metadata", JObj [(s2l "auditId", JStr (s2l "id-1"))]);
+                (s2l "type", JStr (s2l "UserLogin"));
+                (s2l "loggedAt", JStr (s2l "2023-04-05T06:07:08.123456789Z"));
+                (s2l "source", JObj [(s2l "type", JStr (s2l "IP")); (s2l "value", JStr (s2l "10.0.0.9"));
+                                     (s2l "extra", JObj [(s2l "port", JStr (s2l "22"))])]);
+                (s2l "outcome", JStr (s2l "failed"));
+                (s2l "subjects", JObj [(s2l "loggedAs", JStr (hx "78227d0a7b226d65746164617461223a7b7d7d"));
+                                       (s2l "pid", JStr (s2l "4242")); (s2l "userID", JStr (s2l "unknown"))]);
+                (s2l "component", JStr (s2l "sshd"));
+                (s2l "target", JObj [(s2l "host", JStr (s2l "node-7")); (s2l "machine-id", JStr (s2l "mid-0123"))]) ]) [] /\
+  (* a truncated line is not an event *)
+  parse (firstn 60 (enc_event e)) = PErr.
+Proof. vm_compute. repeat split; reflexivity. Qed.
+
+(* ---- 1'. which bytes can occur, completed: bytes from 0x80 on occur only inside well-formed UTF-8 — the text of
+   every string, and the whole line of every event, is valid UTF-8 whatever bytes the fields hold (invalid input bytes
+   having become the six ASCII bytes of the escape of U+FFFD). *)
+From AM Require Import Proofs.JsonUtf8Lemmas.
+Theorem C10_json_string_valid_utf8 : forall s : str, valid_utf8 (enc_string s) = true.
+Proof. exact enc_string_valid. Qed.
+Print Assumptions C10_json_string_valid_utf8.
+
+Theorem C10_json_line_valid_utf8 : forall e : jevent, event_utf8 e = true -> valid_utf8 (enc_line e) = true.
+Proof. exact enc_line_valid. Qed.
+Print Assumptions C10_json_line_valid_utf8.
+
+Theorem C10_json_login_view_utf8 : forall (aid t : str) (e : Model.SshdProc.event),
+  time_text_ok t = true -> event_utf8 (login_view aid t e) = true.
+Proof. exact login_view_utf8. Qed.
+Print Assumptions C10_json_login_view_utf8.
+
+Theorem C10_json_action_view_utf8 : forall (t : str) (a : Model.ToEvent.uaction),
+  time_text_ok t = true -> event_utf8 (action_view t a) = true.
+Proof. exact action_view_utf8. Qed.
+Print Assumptions C10_json_action_view_utf8.
+
+Example C10_json_utf8_example :
+  valid_utf8 (hx "78ffc0afeda080f4908080e282") = false /\
+  valid_utf8 (enc_string (hx "78ffc0afeda080f4908080e282")) = true /\
+  event_utf8 (login_view (hx "ff") (s2l "2023-04-05T06:07:08Z") C10_json_hostile_login) = true.
+Proof. vm_compute. repeat split; reflexivity. Qed.
